@@ -227,7 +227,7 @@ check("C14", "model_checking",
       "TLA+ refinement model + TLC-exported scenarios on the real TxPool + TLC trace validation; race detector for the concurrency clause",
       "DESIGN.md#c14")
 
-HOOK_COMMITS += ["5c4dfac8", "9ce16e66", "4a56e3dc", "58d66a91", "071a9dbf"]
+HOOK_COMMITS += ["5c4dfac8", "9ce16e66", "4a56e3dc", "58d66a91", "071a9dbf", "a5813e9b", "f4b39fcd"]
 
 check("C07", "model_checking",
       "Cert.tla transcribes the registry (loadValidNodes / determineValidators), the committee size and threshold rules (<= 8 table, "
